@@ -668,9 +668,7 @@ class Terms(object):
         """Canonical (term, polarity) of a condition: the term is never a
         ("not", ...)."""
         t = self.term(expr, node, env)
-        while t[0] == "not":
-            t, polarity = t[1], not polarity
-        return t, polarity
+        return norm_cond(t, polarity)
 
     def facts(self, node):
         """Canonical dominating facts at ``node``: [(term, polarity)]."""
@@ -1435,6 +1433,17 @@ def unsite(t):
     return tuple(unsite(x) for x in t)
 
 
+def norm_cond(t, pol):
+    """(term, polarity) with the term never a negation and order comparisons
+    always stated positively (not a < b  is  b <= a)."""
+    while t[0] == "not":
+        t, pol = t[1], not pol
+    if t[0] == "cmp" and t[1] in ("Lt", "LtE") and not pol:
+        t = ("cmp", "LtE" if t[1] == "Lt" else "Lt", t[3], t[2])
+        pol = True
+    return t, pol
+
+
 def split_cond(t, pol):
     """The atomic facts implied by condition ``t`` having truth value
     ``pol``: conjunctions that hold / disjunctions that fail are split."""
@@ -1445,7 +1454,7 @@ def split_cond(t, pol):
         for x in t[1:]:
             out.extend(split_cond(x, pol))
         return out
-    return [(t, pol)]
+    return [norm_cond(t, pol)]
 
 
 def strip_new(t):
